@@ -78,3 +78,18 @@ Proof.
   assert (F : forallb (fun p => negb (existsb (zlist_eqb p) trackedProps)) cssPrefixedProps = true) by (vm_compute; reflexivity).
   intros p Hp. rewrite forallb_forall in F. apply negb_true_iff. apply F. exact Hp.
 Qed.
+
+(* percentage reference ranges: the model (= the Go code, tied by pctref_cases)
+   agrees with CSS Color 4 everywhere except the chroma of lch() *)
+Theorem pct_reference_ranges_partial_all : forall fn comp,
+  1 <= fn <= 5 -> 0 <= comp <= 2 ->
+  ~ (fn = 2 /\ comp = 1) -> model_pct_ref fn comp = spec_pct_ref fn comp.
+Proof.
+  intros fn comp Hf Hc H.
+  assert (Ef : fn = 1 \/ fn = 2 \/ fn = 3 \/ fn = 4 \/ fn = 5) by lia.
+  assert (Ec : comp = 0 \/ comp = 1 \/ comp = 2) by lia.
+  destruct Ef as [->|[->|[->|[->| ->]]]]; destruct Ec as [->|[->| ->]]; try reflexivity.
+  exfalso. apply H. split; reflexivity.
+Qed.
+Theorem pct_reference_lch_chroma_refuted_all : model_pct_ref 2 1 <> spec_pct_ref 2 1.
+Proof. discriminate. Qed.
